@@ -124,11 +124,8 @@ Proof. split.
 Lemma pg_is_nan_of_nan_refuted vr :
   exists args r r', spec_method mf mf2 "is_nan" args = Some r /\ sql_eval mf mf2 vr DPg "is_nan" [false] args = Some r' /\ differs r' r.
 Proof. exists [SNaN], (SBool true), (SBool false). repeat split; reflexivity. Qed.
-Lemma polars_maxmin_refuted :
+Lemma polars_maxmin_nan_refuted :
   (exists args r r', spec_method mf mf2 "maximum" args = Some r /\ pl_eval mf mf2 "maximum" args = Some r' /\ differs r' r) /\
   (exists args r r', spec_method mf mf2 "minimum" args = Some r /\ pl_eval mf mf2 "minimum" args = Some r' /\ differs r' r).
-Proof. split; exists [SNum 1; SNull], SNull, (SNum 1); repeat split; reflexivity. Qed.
-Lemma polars_is_inf_null_refuted :
-  exists args r r', spec_method mf mf2 "is_inf" args = Some r /\ pl_eval mf mf2 "is_inf" args = Some r' /\ differs r' r.
-Proof. exists [SNull], (SBool false), SNull. repeat split; reflexivity. Qed.
+Proof. split; exists [SNaN; SNum 1], SNull, (SNum 1); repeat split; reflexivity. Qed.
 End Top.
